@@ -55,6 +55,20 @@ br_ssl_client_reset(br_ssl_client_context *cc,
 	if (!resume_session || cc->eng.hs_unfinished) {
 		br_ssl_client_forget_session(cc);
 	}
+
+	/*
+	 * A session negotiated with a protocol version that is no
+	 * longer allowed cannot be resumed: the server, which only
+	 * sees our maximum version, might resume it at the old version
+	 * and we would then refuse its ServerHello. A full handshake
+	 * is needed.
+	 */
+	if (cc->eng.session.session_id_len != 0
+		&& (cc->eng.session.version < cc->eng.version_min
+		|| cc->eng.session.version > cc->eng.version_max))
+	{
+		br_ssl_client_forget_session(cc);
+	}
 	if (!br_ssl_engine_init_rand(&cc->eng)) {
 		return 0;
 	}
